@@ -486,5 +486,7 @@ def run(ctx):
                        "_iter: BYSETPOS selection")
     from ..rules_common import check_presence_tests, ARG_SCOPE
     check_presence_tests(ctx, "C01.PRESENCE", classes=ARG_SCOPE.get("C01", []))
+    from ..rules_common import check_param_rebinding
+    check_param_rebinding(ctx, "C01.PARAMS", classes=ARG_SCOPE.get("C01", []))
 
 
